@@ -35,6 +35,6 @@ Print Assumptions C05_markers_never_confused_refuted.
 (* the hypotheses of C05_roundtrip_partial are satisfiable by an instance with nested dataclasses and
    binary payloads, and the model restores it *)
 Theorem C05_roundtrip_hyps_satisfiable :
-  hyps R WS clean_witness = true /\ payloads clean_witness <> [].
-Proof. split; [vm_compute; reflexivity | vm_compute; discriminate]. Qed.
+  hyps_strict R WS clean_witness = true /\ bytes_ok clean_witness = true /\ payloads clean_witness <> [].
+Proof. split; [vm_compute; reflexivity |]. split; [vm_compute; reflexivity | vm_compute; discriminate]. Qed.
 Print Assumptions C05_roundtrip_hyps_satisfiable.
